@@ -8,6 +8,12 @@ static void ini_hex(FILE *f, const char *s) {
 	fputc('"', f); for (; *s; s++) fprintf(f, "%02x", (unsigned char)*s); fputc('"', f);
 }
 
+/* a name that is not in the given list (a coverage-guided fuzzer learns fixed probe names through strcmp tracing) */
+static void ini_absent_name(PList *l, char *out, size_t cap) {
+	PList *c; snprintf(out, cap, "__vf_missing__");
+	for (;;) { int hit = 0; for (c = l; c; c = c->next) if (c->data && !strcmp(c->data, out)) hit = 1; if (!hit || strlen(out) + 2 >= cap) return; strcat(out, "_"); }
+}
+
 /* Robustness oracle: every listed section has >=1 key, every listed key exists and has a retrievable value.
  * Returns NULL if consistent, else a static reason string.  If `dump` is non-NULL writes the content as JSON. */
 static const char *ini_check_file(const char *path, FILE *dump, long long *nsec, long long *nkeys) {
@@ -52,10 +58,12 @@ static const char *ini_check_file(const char *path, FILE *dump, long long *nsec,
 		}
 		/* defaults for a missing key */
 		{
-			pchar *dv = p_ini_file_parameter_string(ini, sec, "__vf_missing__", "dflt");
-			int okd = dv && !strcmp(dv, "dflt") && p_ini_file_parameter_int(ini, sec, "__vf_missing__", -77) == -77 && p_ini_file_parameter_double(ini, sec, "__vf_missing__", 2.5) == 2.5
-			          && p_ini_file_parameter_boolean(ini, sec, "__vf_missing__", TRUE) == TRUE && p_ini_file_parameter_boolean(ini, sec, "__vf_missing__", FALSE) == FALSE
-			          && p_ini_file_parameter_list(ini, sec, "__vf_missing__") == NULL && !p_ini_file_is_key_exists(ini, sec, "__vf_missing__");
+			char mk[1200]; pchar *dv; ini_absent_name(keys, mk, sizeof mk);
+#define MK mk
+			dv = p_ini_file_parameter_string(ini, sec, MK, "dflt");
+			int okd = dv && !strcmp(dv, "dflt") && p_ini_file_parameter_int(ini, sec, MK, -77) == -77 && p_ini_file_parameter_double(ini, sec, MK, 2.5) == 2.5
+			          && p_ini_file_parameter_boolean(ini, sec, MK, TRUE) == TRUE && p_ini_file_parameter_boolean(ini, sec, MK, FALSE) == FALSE
+			          && p_ini_file_parameter_list(ini, sec, MK) == NULL && !p_ini_file_is_key_exists(ini, sec, MK);
 			if (!okd && !bad) bad = "missing key did not yield the defaults";
 			p_free(dv);
 		}
@@ -63,8 +71,9 @@ static const char *ini_check_file(const char *path, FILE *dump, long long *nsec,
 		p_list_foreach(keys, (PFunc)p_free, NULL); p_list_free(keys);
 	}
 	{
-		pchar *dv = p_ini_file_parameter_string(ini, "__vf_missing_section__", "k", "dflt");
-		if ((!dv || strcmp(dv, "dflt") || p_ini_file_parameter_int(ini, "__vf_missing_section__", "k", 5) != 5 || p_ini_file_keys(ini, "__vf_missing_section__") != NULL) && !bad) bad = "missing section did not yield the defaults";
+		char ms[1200]; pchar *dv; ini_absent_name(secs, ms, sizeof ms);
+		dv = p_ini_file_parameter_string(ini, ms, "k", "dflt");
+		if ((!dv || strcmp(dv, "dflt") || p_ini_file_parameter_int(ini, ms, "k", 5) != 5 || p_ini_file_keys(ini, ms) != NULL) && !bad) bad = "missing section did not yield the defaults";
 		p_free(dv);
 	}
 	if (dump) fprintf(dump, "],\"bad\":%s%s%s}\n", bad ? "\"" : "", bad ? bad : "null", bad ? "\"" : "");
